@@ -940,7 +940,7 @@ def note_desc_fields(blob_off, notes, be=False, maxdesc=64, width=8):
 
 
 def write_elf_sections(path, ps=4096, machine="x86_64", pages=(3, 4, 7), p2m=True, be=False, prstatus=True,
-                       strtab_terminated=True):
+                       strtab_terminated=True, prstatus_last=False):
     """xc_core-like ELF64: no program headers, sections .shstrtab, .note.Xen, .xen_prstatus,
     .xen_pages, .xen_p2m (or .xen_pfn).  Returns dict(fields=, bounds=)."""
     E = ">" if be else "<"
@@ -956,6 +956,8 @@ def write_elf_sections(path, ps=4096, machine="x86_64", pages=(3, 4, 7), p2m=Tru
     notes = (elf_note(b"Xen", 0x2000001, xen_hdr, be) + elf_note(b"Xen", 0x2000003, struct.pack(E + "Q", 1), be) +
              elf_note(b".note.Xen", 0x2000001, xen_hdr, be) + elf_note(b".note.Xen", 0x2000003, struct.pack(E + "Q", 1), be))
     prst = bytes(bytearray(range(256)) * 21)[:5168] if prstatus else b""     # one vcpu_guest_context-sized record
+    if prstatus_last:
+        prst += b"\x11" * 8                                                   # and a trailing partial one
     if p2m:
         mapb = b"".join(struct.pack(E + "QQ", p, 0x100 + p) for p in pages)
     else:
@@ -974,6 +976,25 @@ def write_elf_sections(path, ps=4096, machine="x86_64", pages=(3, 4, 7), p2m=Tru
             offs.append(off)
             off += len(b)
     shoff = (off + 7) & ~7
+    if prstatus_last:
+        # the register section is the last thing in the file and ends exactly at a page boundary (= the end of the file):
+        # section headers directly behind the ELF header, every other body behind them
+        shoff = ehsz
+        off = shoff + shsz * len(bodies)
+        offs = []
+        for i, b in enumerate(bodies):
+            if i == 3:
+                offs.append(None)
+            elif b is None:
+                off = (off + ps - 1) // ps * ps
+                offs.append(off)
+                off += len(pages) * ps
+            else:
+                off = (off + 7) & ~7
+                offs.append(off)
+                off += len(b)
+        end = (off + len(prst) + ps - 1) // ps * ps
+        offs[3] = end - len(prst)
     sh = b""
     for i, b in enumerate(bodies):
         size = len(pages) * ps if b is None else len(b)
@@ -981,7 +1002,7 @@ def write_elf_sections(path, ps=4096, machine="x86_64", pages=(3, 4, 7), p2m=Tru
                           offs[i] if i else 0, size if i else 0, 0, 0, 8, 0)
     ident = b"\x7fELF" + bytes([2, 2 if be else 1, 1, 0]) + b"\0" * 8
     eh = ident + struct.pack(E + "HHIQQQIHHHHHH", 4, EM[machine], 1, 0, 0, shoff, 0, ehsz, 56, 0, shsz, len(bodies), 1)
-    img = bytearray(shoff + len(sh))
+    img = bytearray(max(shoff + len(sh), offs[3] + len(prst)) if prstatus_last else shoff + len(sh))
     img[0:len(eh)] = eh
     for i, b in enumerate(bodies):
         if b is None:
@@ -989,7 +1010,7 @@ def write_elf_sections(path, ps=4096, machine="x86_64", pages=(3, 4, 7), p2m=Tru
                 img[offs[i] + k * ps:offs[i] + (k + 1) * ps] = page_bytes(p, ps)
         else:
             img[offs[i]:offs[i] + len(b)] = b
-    img[shoff:] = sh
+    img[shoff:shoff + len(sh)] = sh
     with open(path, "wb") as f:
         f.write(img)
     fields = elf_fields(64, be, 0, len(bodies), shoff=shoff) + note_fields(offs[2], notes, be) + note_desc_fields(offs[2], notes, be)
